@@ -32,7 +32,9 @@ fn route(req: &Json) -> Json {
     let Some(guards) = guards.iter().map(|g| g.as_str().map(str::to_owned)).collect::<Option<Vec<String>>>() else {
         return json!({"r": "bad-op"});
     };
-    let Some(host) = req.get("host").and_then(|h| h.as_str()) else { return json!({"r": "bad-op"}) };
+    // `header` (the Host header as sent, possibly with a port) is what the generated code sees; `host` (without the port) is
+    // what the model and the oracle reason about (port stripping by http::uri::Authority is assumed, not modelled)
+    let Some(host) = req.get("header").or_else(|| req.get("host")).and_then(|h| h.as_str()) else { return json!({"r": "bad-op"}) };
     let verdicts: Vec<Json> = guards
         .iter()
         .map(|g| match pavexc::verif::domain_guard(g) {
